@@ -90,7 +90,7 @@ func fpDatasets(t *trace.Trace) string {
 }
 
 func execC01(t *trace.Trace, dir string) *harness.RunResult {
-	out := RunClassified(t, Options{Dir: dir, Property: "C01"})
+	out := RunClassified(t, Options{Dir: dir, Property: "C01", DetectClobber: true})
 	res := toResult(out)
 	for k, v := range out.Probes {
 		if strings.HasPrefix(k, "values-ok") && v > 0 {
@@ -110,6 +110,284 @@ func init() {
 		Technique: "deterministic simulation: seeded write/restart/read histories against a reference model over the simulated disk",
 		Assumptions: []string{"restart = Close then fresh Open; the simulated disk does not model loss of unsynced writes",
 			"typed reads that return an error are accepted (statement: 'where no typed read exists the library reports an error')"},
+		RealVsStub: realVsStub,
+	})
+}
+
+// ---------------------------------------------------------------------------
+// C02
+
+func genC02(r *rng.R, tier string, steer bool, idx int) *trace.Trace {
+	t := &trace.Trace{Config: trace.Config{SB: pickSB(r, steer)}}
+	nobj := r.Range(1, 3)
+	var objs []string
+	for i := 0; i < nobj; i++ {
+		if r.Chance(0.25) {
+			p := fmt.Sprintf("/g%d", i)
+			t.Ops = append(t.Ops, trace.Op{Op: "create_group", Path: p})
+			objs = append(objs, p)
+		} else {
+			p := fmt.Sprintf("/d%d", i)
+			op := genDatasetOp(r, p, true, []string{"Int32", "Float64", "Uint8", "String"})
+			t.Ops = append(t.Ops, op, trace.Op{Op: "write", Path: p, Data: genData(r)})
+			objs = append(objs, p)
+		}
+	}
+	maxOps := 40
+	if tier == "thorough" {
+		maxOps = 300
+	}
+	nops := r.Range(1, maxOps)
+	if r.Chance(0.5) {
+		nops = r.Range(1, 14)
+	}
+	names := attrNames(r, r.Range(4, 24))
+	if r.Chance(0.5) {
+		names = names[:min(len(names), 5)] // few names: many overwrites
+	}
+	big := r.Chance(0.3)
+	live := map[string]map[string]bool{}
+	for _, o := range objs {
+		live[o] = map[string]bool{}
+	}
+	restarts := 0
+	for i := 0; i < nops; i++ {
+		obj := rng.Pick(r, objs)
+		l := live[obj]
+		// bias: grow towards and across 8, then shrink back
+		wantDelete := r.Chance(0.3)
+		if len(l) >= 10 && r.Chance(0.5) {
+			wantDelete = true
+		}
+		if len(l) == 0 {
+			wantDelete = r.Chance(0.05)
+		}
+		if wantDelete && !strings.HasPrefix(obj, "/g") {
+			name := rng.Pick(r, names)
+			if len(l) > 0 && r.Chance(0.85) {
+				ks := make([]string, 0, len(l))
+				for k := range l {
+					ks = append(ks, k)
+				}
+				sort.Strings(ks)
+				name = rng.Pick(r, ks)
+			}
+			t.Ops = append(t.Ops, trace.Op{Op: "delete_attr", Path: obj, Name: name})
+			delete(l, name) // optimistic bookkeeping, only used for biasing
+		} else {
+			name := rng.Pick(r, names)
+			t.Ops = append(t.Ops, trace.Op{Op: "write_attr", Path: obj, Name: name, Value: genValue(r, rng.Pick(r, attrKinds), big)})
+			l[name] = true
+		}
+		if r.Chance(0.06) && restarts < 3 {
+			t.Ops = append(t.Ops, trace.Op{Op: "restart", Mode: "open_for_write"})
+			restarts++
+		}
+	}
+	return t
+}
+
+func execC02(t *trace.Trace, dir string) *harness.RunResult {
+	out := RunClassified(t, Options{Dir: dir, Property: "C02", SkipValues: true, DetectClobber: true})
+	res := toResult(out)
+	muts, fp := 0, []string{}
+	for i, op := range t.Ops {
+		if (op.Op == "write_attr" || op.Op == "delete_attr") && i < len(out.Results) && out.Results[i].OK() {
+			muts++
+			if len(fp) < 24 {
+				fp = append(fp, op.Op[:1])
+			}
+		}
+	}
+	for k, v := range out.Probes {
+		if strings.HasPrefix(k, "attrs-ok") && v > 0 && muts >= 3 {
+			res.NonTrivial = true
+			fp = append(fp, k)
+		}
+	}
+	sort.Strings(fp[min(len(fp), 24):])
+	res.Fingerprint = fmt.Sprintf("sb%d|%d|%s", t.Config.SB, out.Restarts, strings.Join(fp, ""))
+	return res
+}
+
+func init() {
+	harness.Register(&harness.Prop{
+		ID: "C02", Engine: "E1", Level: "exploration",
+		Gen: genC02, Exec: execC02,
+		Runs:      map[string]int{"quick": 40000, "thorough": 400000},
+		Rule:      "seeded histories of WriteAttribute/DeleteAttribute (1-300 calls, 4-24 names incl. 200-byte and UTF-8 names, all scalar kinds, strings 0-300 bytes, 1-D slices 1-64) on 1-3 objects with Close/OpenForWrite restarts inside the history; after every restart the attribute map read back must equal the model map; non-trivial = >=3 successful mutations and an attribute map verified after a restart; distinct by (superblock version, restarts, sequence of first 24 successful op kinds, storage classes verified)",
+		Technique: "deterministic simulation: seeded attribute histories with restarts vs map model over a simulated disk",
+		Assumptions: []string{"a call that returns an error leaves the model unchanged ('last successful write wins')",
+			"DeleteAttribute of an absent name may succeed or fail; either way the map is unchanged"},
+		RealVsStub: realVsStub,
+	})
+}
+
+// ---------------------------------------------------------------------------
+// C03
+
+func genC03(r *rng.R, tier string, steer bool, idx int) *trace.Trace {
+	t := &trace.Trace{Config: trace.Config{SB: pickSB(r, false)}}
+	maxOps := 40
+	if tier == "thorough" {
+		maxOps = 120
+	}
+	nops := r.Range(2, maxOps)
+	if r.Chance(0.4) {
+		nops = r.Range(2, 10)
+	}
+	groups := []string{"/"}
+	var objects []string // datasets and groups (link targets)
+	var all []string     // every path created (for duplicates)
+	nameN := 0
+	longNames := r.Chance(0.15)
+	wide := r.Chance(0.15) // many children in one group: hit the 32-entry capacity
+	newName := func() string {
+		nameN++
+		if longNames && r.Chance(0.5) {
+			s := fmt.Sprintf("n%d_", nameN)
+			for len(s) < 40+r.Intn(60) {
+				s += "xyzxyzxyz"
+			}
+			return s
+		}
+		if r.Chance(0.1) {
+			return fmt.Sprintf("ü%d", nameN)
+		}
+		return fmt.Sprintf("n%d", nameN)
+	}
+	join := func(g, n string) string {
+		if g == "/" {
+			return "/" + n
+		}
+		return g + "/" + n
+	}
+	for i := 0; i < nops; i++ {
+		parent := rng.Pick(r, groups)
+		if wide {
+			parent = groups[0]
+			if len(groups) > 1 && r.Chance(0.7) {
+				parent = groups[1]
+			}
+		} else if r.Chance(0.5) {
+			parent = groups[len(groups)-1] // go deep
+		}
+		path := join(parent, newName())
+		bad := ""
+		switch {
+		case r.Chance(0.06) && len(all) > 0:
+			path = rng.Pick(r, all) // duplicate name
+			bad = "duplicate"
+		case r.Chance(0.05):
+			path = join(join(parent, fmt.Sprintf("missing%d", i)), "x") // missing parent
+			bad = "missing-parent"
+		}
+		k := r.Weighted([]int{30, 30, 12, 8, 6, 4, 3})
+		if steer && k >= 5 {
+			k = 0 // avoidance (known finding): members of dense groups are not listed by the reader
+		}
+		var op trace.Op
+		switch k {
+		case 0:
+			op = trace.Op{Op: "create_group", Path: path}
+		case 1:
+			op = trace.Op{Op: "create_dataset", Path: path, DType: "Int32", Dims: []uint64{2}}
+		case 2:
+			if len(objects) == 0 {
+				op = trace.Op{Op: "create_group", Path: path}
+			} else {
+				tgt := rng.Pick(r, objects)
+				if r.Chance(0.2) && parent != "/" {
+					tgt = parent // link to an ancestor (itself)
+				}
+				op = trace.Op{Op: "hard_link", Path: path, Target: tgt}
+			}
+		case 3:
+			tgt := "/nowhere"
+			if len(objects) > 0 && r.Chance(0.7) {
+				tgt = rng.Pick(r, objects)
+			}
+			op = trace.Op{Op: "soft_link", Path: path, Target: tgt}
+		case 4:
+			op = trace.Op{Op: "ext_link", Path: path, File: "other.h5", Target: "/data"}
+		case 5, 6:
+			op = trace.Op{Op: "create_dense_group", Path: path}
+			if k == 6 {
+				op.Op = "create_group_with_links"
+			}
+			// at most one link: the library iterates the caller's map, so >1 link
+			// makes the file bytes depend on Go's map iteration order
+			if len(objects) > 0 && r.Chance(0.7) {
+				op.Links = []trace.Link{{Name: "l0", Target: rng.Pick(r, objects)}}
+			}
+		}
+		op.Bad = bad
+		t.Ops = append(t.Ops, op)
+		if bad == "" {
+			all = append(all, path)
+			switch op.Op {
+			case "create_group":
+				groups = append(groups, path)
+				objects = append(objects, path)
+			case "create_dataset":
+				objects = append(objects, path)
+			}
+		}
+	}
+	return t
+}
+
+func execC03(t *trace.Trace, dir string) *harness.RunResult {
+	out := RunClassified(t, Options{Dir: dir, Property: "C03", SkipValues: true, DetectClobber: true})
+	res := toResult(out)
+	depth, links, kinds := 0, 0, map[string]bool{}
+	for i, op := range t.Ops {
+		if i < len(out.Results) && out.Results[i].OK() {
+			kinds[op.Op] = true
+			if d := strings.Count(op.Path, "/"); d > depth {
+				depth = d
+			}
+			if strings.HasSuffix(op.Op, "_link") {
+				links++
+			}
+		}
+	}
+	ks := make([]string, 0, len(kinds))
+	for k := range kinds {
+		ks = append(ks, k)
+	}
+	sort.Strings(ks)
+	res.NonTrivial = (depth >= 2 || links >= 1) && out.Final != nil && out.Final.OpenErr == ""
+	res.Fingerprint = fmt.Sprintf("sb%d|d%d|l%d|n%d|%s", t.Config.SB, depth, min(links, 5), min(out.OKOps, 40), strings.Join(ks, ","))
+	if depth >= 4 {
+		res.Probes["depth>=4"]++
+	}
+	for i, r := range out.Results {
+		if r.Err != "" {
+			switch {
+			case t.Ops[i].Bad != "":
+				res.Probes["rejected:"+t.Ops[i].Bad]++
+			case strings.Contains(r.Err, "heap is full"):
+				res.Probes["capacity:name-heap-full"]++
+			case strings.Contains(r.Err, "symbol table") && strings.Contains(r.Err, "full"):
+				res.Probes["capacity:group-full"]++
+			default:
+				res.Probes["rejected:other"]++
+			}
+		}
+	}
+	return res
+}
+
+func init() {
+	harness.Register(&harness.Prop{
+		ID: "C03", Engine: "E1", Level: "exploration",
+		Gen: genC03, Exec: execC03,
+		Runs:      map[string]int{"quick": 60000, "thorough": 1000000},
+		Rule:      "seeded creation histories (groups, datasets, hard/soft/external links, dense groups; depth 1-6+, >32 children in one group, long names, duplicate and missing-parent requests, links to ancestors) followed by Close/Open; the reopened tree must equal the model tree and the two rejections the statement demands must be errors; non-trivial = depth >= 2 or >= 1 link, and the file reopened; distinct by (superblock version, depth, links, successful ops, op kinds)",
+		Technique: "deterministic simulation: seeded namespace histories with capacity exhaustion vs tree model over a simulated disk",
+		Assumptions: []string{"only the two rejections named in the statement (existing name, missing parent) are demanded; any other call may fail (capacity) and then leaves the model unchanged",
+			"dense groups are created with at most one link because the library iterates the caller's map (file bytes depend on Go's map order)"},
 		RealVsStub: realVsStub,
 	})
 }
